@@ -128,6 +128,10 @@ def run(ctx):
     n_trace = 0
     for i in range(n):
         w = l3gen.gen_workspace(rng, fail_prob=0.4)
+        # read-only files too: making a file writable before replacing it would be an in-place change of the inode
+        for k in list(w["files"]):
+            if rng.random() < 0.35:
+                w["files"][k] = (w["files"][k][0], rng.choice([0o444, 0o555, 0o400]))
         w["files"][b"bystander"] = (b"untouched\n", 0o644)
         w["files"][b"dir/bystander.txt"] = (b"untouched too\n", 0o600)
         cfg = l3common.rand_cfg(rng, threads=(1, 1, 2, 4))
